@@ -259,7 +259,7 @@ func c15Scenarios() []c15Scenario {
 		}},
 		{"errors", "unknown long flag equally near to two declared ones", func() string {
 			b := d.BuildTags()
-			_, err := b.Parser.ParseArgs([]string{"--pOrt=1"})
+			_, err := b.Parser.ParseArgs([]string{"--qort=1"})
 			return errText(err)
 		}},
 		{"errors", "invalid choice and unknown flag", func() string {
